@@ -119,6 +119,11 @@ func (c *syncMap) ExpireAll(ctx context.Context) {
 		return true
 	})
 
+	if cnt > 0 {
+		// Expirations were set, cleanup of UnlimitedTTL cache can not be skipped anymore.
+		atomic.AddInt64(&c.t.expirationsSet, 1)
+	}
+
 	c.t.NotifyExpiredAll(ctx, start, cnt)
 }
 
@@ -217,6 +222,10 @@ func (c *SyncMap) Restore(r io.Reader) (int, error) {
 			}
 
 			return n, err
+		}
+
+		if e.E != 0 {
+			atomic.AddInt64(&c.t.expirationsSet, 1)
 		}
 
 		c.data.Store(string(e.K), &e)
